@@ -76,6 +76,8 @@ MUTATIONS=(
 "magic-swap-mask-args|FAIL|$MAGIC|s/magic_hash(self.mask, self.hash_shift, self.hash_mask, self.magic, occupancy)/magic_hash(self.hash_mask, self.hash_shift, self.mask, self.magic, occupancy)/"
 "magic-HARMLESS-wrapping-mul|PASS|$MAGIC|s/i1.overflowing_mul(magic).0/i1.wrapping_mul(magic)/"
 "magic-HARMLESS-rename-local|PASS|$MAGIC|s/\bi1\b/masked/g"
+"magic-array-index-plus-one|FAIL|$MAGIC|s/self.get_unchecked(square as usize).get_attacks(occupancy)/self.get_unchecked(square as usize + 1).get_attacks(occupancy)/"
+"magic-array-HARMLESS-let|PASS|$MAGIC|s/self.get_unchecked(square as usize).get_attacks(occupancy)/let c = self.get_unchecked(square as usize); c.get_attacks(occupancy)/"
 # ---- packed move word: constants, getters, setters (C02 / C03)
 "move-mask-wider|FAIL|$CONSTS|s/PIECE_ATTACKED_MASK: MaskBits = 0b111000;/PIECE_ATTACKED_MASK: MaskBits = 0b1111000;/"
 "move-shift-off-by-one|FAIL|$CONSTS|s/pub const TARGET_SQUARE_SHIFT: ShiftBits = TARGET_SQUARE_MASK.trailing_zeros();/pub const TARGET_SQUARE_SHIFT: ShiftBits = TARGET_SQUARE_MASK.trailing_zeros() + 1;/"
@@ -110,7 +112,7 @@ MUTATIONS=(
 "zxor-castle-rook-target|FAIL|$BOARD|s/G1 => (H1, E1, F1, G1),/G1 => (H1, E1, D1, G1),/"
 "zxor-prev-ep-uses-next|FAIL|$BOARD|s/pawn_result ^= Zobrist::en_passant_square_hash(mv.get_previous_en_passant_square());/pawn_result ^= Zobrist::en_passant_square_hash(mv.get_next_en_passant_square());/"
 "zxor-HARMLESS-rename-local|PASS|$BOARD|s/piece_promoted/promo/g"
-"zxor-HARMLESS-swap-lets|PASS|$BOARD|/        let piece_moved = mv.get_piece_moved();/{h;d};/        let piece_promoted = mv.get_promotion_piece();/{G}"
+"zxor-HARMLESS-swap-lets|PASS|$BOARD|/pub fn zobrist_xor(mv: Move)/,/pub const fn calculate_zobrist_hash/{/        let piece_moved = mv.get_piece_moved();/{h;d};/        let piece_promoted = mv.get_promotion_piece();/{G}}"
 # ---- make / unmake (C02 / C03)
 "make-fullmove-always-plus-1|FAIL|$BOARD|s/self.fullmove_clock += self.turn;/self.fullmove_clock += 1;/"
 "make-halfmove-reset-to-1|FAIL|$BOARD|s/            self.halfmove_clock = 0;/            self.halfmove_clock = 1;/"
